@@ -442,6 +442,28 @@ def proof_obligations(work, res, prop_file, coq_ok, coq_log):
     return ok and coq_ok, out
 
 
+def proof_obligations_multi(work, res, prop_files, coq_ok, coq_log):
+    """proof_obligations over several statement files: obligations / discharged / theorems / axioms are summed."""
+    all_ok, outs = True, ""
+    ob = {"obligations": 0, "discharged": 0, "theorems": []}
+    tb = []
+    for pf in prop_files:
+        p_ok, out = proof_obligations(work, res, pf, coq_ok, coq_log)
+        all_ok = all_ok and p_ok
+        outs += out
+        ob["obligations"] += res.coverage["obligations"]
+        ob["discharged"] += res.coverage["discharged"]
+        ob["theorems"] += res.coverage["theorems"]
+        tb += [x for x in res.coverage["trusted_base"][2:]]
+    res.coverage.update(ob)
+    res.coverage["checker_cmd"] = ("cd /verif/coq && ./build.sh  (coq_makefile + make, full .vo build; coqc 8.16.1) ; coqc props/"
+                                   + " props/".join(prop_files))
+    res.coverage["trusted_base"] = ["Coq 8.16.1 kernel incl. vm_compute (no native_compute)",
+                                    "Print Assumptions: %d of %d theorem(s) closed under the global context"
+                                    % (outs.count("Closed under the global context"), ob["obligations"])] + sorted(set(tb))
+    return all_ok, outs
+
+
 def parse_failures(txt):
     """Parse the printed value of a `list (nat * bool * bool)`; strict: anything
     unexpected raises instead of reading as 'no failures'."""
